@@ -205,6 +205,29 @@ def _bits2bytes_lemma(rep: common.Report) -> None:
         rep.unknown("lemma:bits2bytes", f"function body is outside the translatable expression subset: {e}")
 
 
+def _python_metadata(rep: common.Report, d, model_keys, include: bool, prop: str = "C05") -> int:
+    """ground evaluation of the generated Python classes' attributes (subprocess, real numpy).  C05 takes the exported constants
+    (model_keys excluded), C18 the embedded-model clause (model_keys only)."""
+    from checks import py_common
+    try:
+        gen = py_common.generate(d, d / "dsdl" / "vt")
+        res = py_common.python_metadata(gen, d / "dsdl" / "vt")
+    except Exception as e:
+        rep.unknown("py:metadata", f"{type(e).__name__}: {str(e)[-300:]}")
+        return 0
+    n = 0
+    for r in res:
+        n += r["evaluations"]
+        for k, got, exp in r["bad"]:
+            if any(k.startswith(m) for m in model_keys) != include:
+                continue
+            rd = common.replay_dir(prop, dict(py=r["type"], k=k))
+            (rd / "replay.sh").write_text(f"#!/bin/bash\necho 'generated Python class of {r['type']}: {k} is {got}, DSDL definition says {exp}'; exit 11\n")
+            rep.counterexample(f"py:{r['type'].split('.')[1]}:metadata:{k.split(' ')[0]}", f"[py] {r['type']}: {k} = {got}, DSDL definition: {exp}", str(rd), True)
+    rep.extra["python_ground_evaluations"] = n
+    return n
+
+
 def main(tier: str) -> int:
     rep = common.Report("C05", tier, "other")
     _TIER[0] = tier
@@ -226,6 +249,7 @@ def main(tier: str) -> int:
                         rd = common.replay_dir("C05", dict(t=t.full_name, k=k))
                         (rd / "replay.sh").write_text(f"#!/bin/bash\necho 'exported constant {k} of {t.full_name}: generated code says {got}, DSDL definition says {exp}'; exit 11\n")
                         rep.counterexample(f"{t.short_name}:metadata:{k.split('.')[0]}", f"[{on}] {t.full_name}: exported {k} = {got}, DSDL definition: {exp}", str(rd), True)
+        n_ground += _python_metadata(rep, d, ("_MODEL_", "str(_MODEL_)", "get_class"), include=False)
         _bits2bytes_lemma(rep)
         rep.functions = ["<T>_serialize_ of every corpus type (size bounds; -O1 IR with memory obligations: bounds, uninitialised reads, const writes)", "nunavut.jinja.DSDLCodeGenerator.filter_bits2bytes_ceil (AST -> z3 Int)",
                          "exported macros <T>_EXTENT_BYTES_, _SERIALIZATION_BUFFER_SIZE_BYTES_, _HAS_FIXED_PORT_ID_, _FIXED_PORT_ID_, _FULL_NAME_, "
@@ -236,7 +260,9 @@ def main(tier: str) -> int:
     rep.assumptions = ["the metadata comparison is a ground evaluation (no quantifier): the generated header is compiled and the macro values are compared with "
                        "pydsdl's model; floats via z3 fpRealToFP toward both neighbours ('within one ulp' of the declared type)",
                        "buffer objects are exactly sized, so a write past the advertised size is an out-of-bounds obligation failure"]
-    rep.not_covered = ["C++ constexpr members and Python class attributes (staged)", "types not in the corpus"]
+    rep.not_covered = ["C++ constexpr members", "types not in the corpus"]
+    rep.functions.append("Python: class attributes _EXTENT_BYTES_, _FIXED_PORT_ID_ and every DSDL constant of every generated class (ground evaluation, real numpy); "
+                         "'a buffer of the advertised size suffices' for Python is part of C01 (Serializer.new(_EXTENT_BYTES_) never overflows)")
     rep.extra["explanation"] = ("llsym: serialize with buffer = advertised size (rc==0 => size <= advertised <= extent, no access outside) and with every smaller "
                                 "size (always buffer-too-small, nothing written); integer lemma for bits->bytes; exported constants compared with the DSDL model")
     rep.extra["trusted_base"] = ["clang 14", "z3 5.1", "llsym interpreter", "pydsdl"]
